@@ -155,6 +155,8 @@ def pipeline_cases(tier, seed):
     for stages in pipelines(tier):
         for kind in kinds(tier):
             for tn, tl in T.items():
+                if kind == "hot" and any(t is None for (t, _, _) in tl):
+                    continue  # "emits inside subscribe" timelines exist for cold sources only
                 yield ("P", stages, kind, tn, tl)
 
 
